@@ -157,10 +157,14 @@ func goid() uint64 {
 }
 
 // writerMix performs one mutating op and returns the ack (ok=false if refused).
-func writerOp(c *rosmar.Collection, r *rng.R, key, tok string, last map[string]uint64) (kind string, cas uint64, ok bool, errClass string) {
+func writerOp(c *rosmar.Collection, r *rng.R, key, tok string, last map[string]uint64, withMeta bool) (kind string, cas uint64, ok bool, errClass string) {
 	var err error
 	body := []byte(fmt.Sprintf(`{"v":%q}`, tok))
-	switch r.Intn(11) {
+	n := 10
+	if withMeta {
+		n = 11 // (only where the oracle can cope with caller-chosen CAS values: a resume cannot find a version whose CAS is below its checkpoint)
+	}
+	switch r.Intn(n) {
 	case 10:
 		// a replicated version: caller-chosen CAS a little ahead of the key's current one and of the wall clock. Its
 		// event need not fit into the CAS order of the feed (the CAS is not the clock's), but it is one event, and
@@ -303,7 +307,7 @@ func FeedOrderRun(m *MultiBucket, writers, opsEach, keys int, r *rng.R, noiseSee
 				key := fmt.Sprintf("k%d", wr.Intn(keys))
 				tok := fmt.Sprintf("w%d.%d", wi, i)
 				call := Tick.Add(1)
-				kind, cas, ok, ec := writerOp(m.CollsBy[h][ci], wr, key, tok, last)
+				kind, cas, ok, ec := writerOp(m.CollsBy[h][ci], wr, key, tok, last, true)
 				ret := Tick.Add(1)
 				if flag.CompareAndSwap(true, false) {
 					inWin.Add(-1)
